@@ -296,8 +296,12 @@ def _print_func_outputs(
 
     printer.print_string(" -> ")
 
-    # parens for multiple outputs or attrs
-    needs_parens = len(outputs) > 1 or res_attrs is not None
+    # parens for multiple outputs or attrs, or for a single output of function type
+    needs_parens = (
+        len(outputs) > 1
+        or res_attrs is not None
+        or isinstance(outputs[0], FunctionType)
+    )
     if needs_parens:
         printer.print_string("(")
 
